@@ -88,13 +88,17 @@ def build_wal(path, r, commits=4, page_size=1024):
     keeper = sqlite3.connect(work, isolation_level=None)
     keeper.execute("PRAGMA wal_autocheckpoint=0")
     _schema(con)
+    # a table whose name the exporters have to sanitise, changed in every commit
+    con.execute('CREATE TABLE "call log" (c1 TEXT, c2 BLOB, c3)')
     con.execute("BEGIN")
     _fill(con, r, "t0", 30)
     _fill(con, r, "t2", 10)
+    _fill(con, r, "call log", 4)
     con.execute("COMMIT")
     con.execute("PRAGMA wal_checkpoint(TRUNCATE)")
     for k in range(commits):
         con.execute("BEGIN")
+        _fill(con, r, "call log", 2)
         if k % 3 == 0:
             _fill(con, r, "t0", 8)
             _fill(con, r, "t1", 3)
